@@ -229,6 +229,43 @@ impl Eval<'_> {
                     }
                     assert_eq!(off, v.len(), "assignment width mismatch in the harness IR");
                 }
+                Stmt::Call(fi, args) => {
+                    // inputs are evaluated first (they see the state before the
+                    // call), the body runs in its own frame, then every output
+                    // formal is copied bit by bit onto its actual (MSB first)
+                    let f = &self.m.funcs[*fi];
+                    let mut frame = Env { written: env.written.clone(), locals: Vec::new() };
+                    for (k, a) in args.iter().enumerate() {
+                        match a {
+                            Arg::In(e) => frame.locals.push(self.expr(e, env)),
+                            Arg::Out(_) => frame.locals.push(vec![Deps::new(); f.vars[k].1]),
+                        }
+                    }
+                    for (_, w) in &f.vars[f.n_formals..] {
+                        frame.locals.push(vec![Deps::new(); *w]);
+                    }
+                    self.stmts(&f.body, &mut frame, &Deps::new());
+                    for (k, a) in args.iter().enumerate() {
+                        if let Arg::Out(ts) = a {
+                            let v = &frame.locals[k];
+                            let mut off = 0;
+                            for t in ts.iter().rev() {
+                                for i in 0..t.w() {
+                                    let mut dep = v[off + i].clone();
+                                    dep.extend(ctrl.iter().copied());
+                                    match t {
+                                        Target::Sig(p) => {
+                                            env.written.insert(self.node(p.sig, p.lo + i), dep);
+                                        }
+                                        Target::Local(ix, lo, _) => env.locals[*ix][lo + i] = dep,
+                                    }
+                                }
+                                off += t.w();
+                            }
+                            assert_eq!(off, v.len(), "output actual width mismatch in the harness IR");
+                        }
+                    }
+                }
                 Stmt::If(c, t, f) => {
                     let mut cd = union_all(&self.expr_f(c, env, self.sem.flat_under_op));
                     cd.extend(ctrl.iter().copied());
@@ -287,12 +324,43 @@ fn stmts_use_local(ss: &[Stmt], ix: usize) -> bool {
     ss.iter().any(|s| match s {
         Stmt::Assign(_, e) => expr_uses_local(e, ix),
         Stmt::If(c, t, f) => expr_uses_local(c, ix) || stmts_use_local(t, ix) || stmts_use_local(f, ix),
+        Stmt::Call(_, args) => args.iter().any(|a| matches!(a, Arg::In(e) if expr_uses_local(e, ix))),
     })
 }
 
 /// formals never read anywhere in the function (syntactically)
 pub fn unused_formals(f: &Func) -> Vec<bool> {
     (0..f.n_formals).map(|i| !(stmts_use_local(&f.body, i) || expr_uses_local(&f.ret, i))).collect()
+}
+
+/// Is some node of `to` reachable from some node of `from` (in one or more steps)?
+pub fn reaches(g: &ModGraph, from: &[Node], to: &BTreeSet<Node>) -> bool {
+    let mut adj: Vec<Vec<Node>> = vec![Vec::new(); g.n];
+    for (s, t, _) in &g.edges {
+        adj[*s as usize].push(*t);
+    }
+    let mut seen = vec![false; g.n];
+    let mut st: Vec<Node> = Vec::new();
+    for f in from {
+        for y in &adj[*f as usize] {
+            if !seen[*y as usize] {
+                seen[*y as usize] = true;
+                st.push(*y);
+            }
+        }
+    }
+    while let Some(x) = st.pop() {
+        if to.contains(&x) {
+            return true;
+        }
+        for y in &adj[x as usize] {
+            if !seen[*y as usize] {
+                seen[*y as usize] = true;
+                st.push(*y);
+            }
+        }
+    }
+    false
 }
 
 /// Bit-level graphs of every module of the design under `sem`.
@@ -487,6 +555,8 @@ pub struct CycleInfo {
     pub through_inst: bool,
     /// item indices participating in cyclic SCCs
     pub items: BTreeSet<usize>,
+    /// bit nodes of all cyclic SCCs
+    pub nodes: BTreeSet<Node>,
 }
 
 pub fn cycle_info(m: &Module, g: &ModGraph) -> CycleInfo {
@@ -507,6 +577,7 @@ pub fn cycle_info(m: &Module, g: &ModGraph) -> CycleInfo {
             info.through_inst = true;
         }
         info.items.extend(items);
+        info.nodes.extend(set);
     }
     info
 }
@@ -548,6 +619,14 @@ fn stmts_sigs(ss: &[Stmt], funcs: &[Func], out: &mut BTreeSet<SigId>) {
                 stmts_sigs(t, funcs, out);
                 stmts_sigs(f, funcs, out);
             }
+            Stmt::Call(fi, args) => {
+                for a in args {
+                    if let Arg::In(e) = a {
+                        expr_sigs(e, funcs, out);
+                    }
+                }
+                stmts_sigs(&funcs[*fi].body, funcs, out);
+            }
         }
     }
 }
@@ -571,6 +650,26 @@ fn coarse_stmts(ss: &[Stmt], funcs: &[Func], ctrl: &BTreeSet<SigId>, edges: &mut
                 expr_sigs(c, funcs, &mut cc);
                 coarse_stmts(t, funcs, &cc, edges);
                 coarse_stmts(f, funcs, &cc, edges);
+            }
+            Stmt::Call(fi, args) => {
+                let mut r = ctrl.clone();
+                for a in args {
+                    if let Arg::In(e) = a {
+                        expr_sigs(e, funcs, &mut r);
+                    }
+                }
+                stmts_sigs(&funcs[*fi].body, funcs, &mut r);
+                for a in args {
+                    if let Arg::Out(ts) = a {
+                        for t in ts {
+                            if let Target::Sig(p) = t {
+                                for x in &r {
+                                    edges.push((*x as Node, p.sig as Node));
+                                }
+                            }
+                        }
+                    }
+                }
             }
         }
     }
